@@ -577,3 +577,151 @@ impl Oracle for Converge {
         self.last
     }
 }
+
+// ---------------------------------------------------------------------------
+// Restart from the byte store: C26
+
+pub struct RestartOracle {
+    pre: Option<(Snap, bool)>,
+    saved_fresh: bool,
+    bytes_compared: u64,
+    clean_compared: u64,
+    dirty_compared: u64,
+    skipped_stale: u64,
+    last: u64,
+}
+
+impl RestartOracle {
+    pub fn new() -> RestartOracle {
+        RestartOracle { pre: None, saved_fresh: false, bytes_compared: 0, clean_compared: 0, dirty_compared: 0, skipped_stale: 0, last: 0 }
+    }
+}
+
+impl Oracle for RestartOracle {
+    fn init(&mut self, _w: &World) {}
+    fn before(&mut self, w: &World, ev: &Ev) {
+        match ev {
+            Ev::Restart { .. } => {
+                self.pre = Some((snapshot(&w.primary), w.primary.stale));
+            }
+            Ev::Save => {
+                self.saved_fresh = !w.primary.stale;
+            }
+            _ => {}
+        }
+    }
+    fn after(&mut self, w: &mut World, ev: &Ev, res: &StepRes, idx: usize) -> Verdict {
+        let kind = ev.kind();
+        if let Some(p) = &res.panic {
+            if matches!(ev, Ev::Restart { .. } | Ev::Save) {
+                return Verdict::Violation(Violation::simple("panic", idx, kind, "panic", p.clone()));
+            }
+            return Verdict::Abandon(Abandon(format!("panic in {kind}: {p}")));
+        }
+        match ev {
+            Ev::Save => {
+                // (1) decode(encode(workbook)) == workbook, field by field (derived PartialEq)
+                self.bytes_compared += 1;
+                let bytes = w.primary.um.to_bytes();
+                match ironcalc_base::Model::from_bytes(&bytes, w.primary.lang) {
+                    Ok(m) => {
+                        if m.workbook != w.primary.model().workbook {
+                            let a = crate::snap::snapshot_model(&m, None, &crate::snap::SnapOpts { text: false });
+                            let b = crate::snap::snapshot_model(w.primary.model(), None, &crate::snap::SnapOpts { text: false });
+                            let d = diff(&b, &a);
+                            if d.is_empty() {
+                                return Verdict::Violation(Violation::simple(
+                                    "bytes-identical",
+                                    idx,
+                                    kind,
+                                    "workbook",
+                                    "from_bytes(to_bytes(m)).workbook != m.workbook (a field outside the observable snapshot differs)".into(),
+                                ));
+                            }
+                            return Verdict::Violation(Violation::from_diff(
+                                "bytes-identical",
+                                idx,
+                                idx,
+                                kind,
+                                d,
+                                "from_bytes(to_bytes(m)).workbook != m.workbook".into(),
+                            ));
+                        }
+                    }
+                    Err(e) => {
+                        return Verdict::Violation(Violation::simple("bytes-load", idx, kind, "result", format!("from_bytes(to_bytes(m)) failed: {e}")));
+                    }
+                }
+                Verdict::Ok
+            }
+            Ev::Restart { dirty } => {
+                if let Err(e) = &res.result {
+                    if e.starts_with("harness:") {
+                        return Verdict::Ok;
+                    }
+                    return Verdict::Violation(Violation::simple("bytes-load", idx, kind, "result", format!("restart failed: {e}")));
+                }
+                let now = snapshot(&w.primary);
+                self.last = crate::snap::hash(&now);
+                if *dirty {
+                    // only durable state survives: the workbook is the one saved
+                    if !self.saved_fresh {
+                        self.skipped_stale += 1;
+                        return Verdict::Ok;
+                    }
+                    if let Some(s) = &w.store {
+                        self.dirty_compared += 1;
+                        let d = diff(&s.snap, &now);
+                        if !d.is_empty() {
+                            return Verdict::Violation(Violation::from_diff(
+                                "dirty-restart",
+                                idx,
+                                idx,
+                                kind,
+                                d,
+                                "after a crash the session loaded from the last saved bytes differs from the session that was saved (expected = at save, actual = after load + evaluate)".into(),
+                            ));
+                        }
+                    }
+                    return Verdict::Ok;
+                }
+                match self.pre.take() {
+                    Some((pre, false)) => {
+                        self.clean_compared += 1;
+                        let d = diff(&pre, &now);
+                        if !d.is_empty() {
+                            return Verdict::Violation(Violation::from_diff(
+                                "clean-restart",
+                                idx,
+                                idx,
+                                kind,
+                                d,
+                                "the session loaded from to_bytes() and evaluated differs from the session that was saved (expected = before, actual = after)".into(),
+                            ));
+                        }
+                        Verdict::Ok
+                    }
+                    _ => {
+                        self.skipped_stale += 1;
+                        Verdict::Ok
+                    }
+                }
+            }
+            _ => Verdict::Ok,
+        }
+    }
+    fn exercised(&self) -> u64 {
+        self.clean_compared + self.dirty_compared + self.bytes_compared
+    }
+    fn counters(&self) -> Vec<(String, u64)> {
+        vec![
+            ("workbook_equality_after_decode".into(), self.bytes_compared),
+            ("clean_restart_compared".into(), self.clean_compared),
+            ("dirty_restart_compared".into(), self.dirty_compared),
+            ("restart_skipped_unevaluated_state".into(), self.skipped_stale),
+        ]
+    }
+    fn last_hash(&self) -> u64 {
+        self.last
+    }
+}
